@@ -54,6 +54,8 @@ class Bounds:
         self._lin_cache = {}
         self.facts = self._edge_facts()
         self._canreach = {}
+        self.summary_of = None     # callable(resolved callee path) -> {"ge_param": [k], "some_plus_le_len": [(k, c)]}
+        self.global_facts = []     # constraints that hold everywhere in the body (contracts on closure parameters)
 
     # ---- definitions ---------------------------------------------------
     def _scan(self):
@@ -497,8 +499,117 @@ class Bounds:
         self._self_inc = out
         return out
 
-    def facts_at(self, site_bb, site_idx, _depth=0):
+    # ---- facts from iteration and slicing -------------------------------------------
+    def _unwrap_def(self, l, depth=0):
+        """Follow plain moves / into_iter / rev / by-ref borrows back from an iterator local to what created it:
+        returns (bb, k, rvalue) of the creating definition or None."""
+        ds = self.defs.get(l, [])
+        ds = [d for d in ds if d[2].get("k") != "partial"]
+        if len(ds) != 1 or depth > 8 or 1 <= l <= self.b.mir["arg_count"]:
+            return None
+        bb, k, rv = ds[0]
+        if rv["k"] == "use" and rv["op"]["k"] in ("copy", "move") and not rv["op"]["place"]["p"]:
+            return self._unwrap_def(rv["op"]["place"]["l"], depth + 1)
+        if rv["k"] in ("ref", "rawptr") and all(e == "deref" for e in rv["place"]["p"]):
+            return self._unwrap_def(rv["place"]["l"], depth + 1)
+        if rv["k"] == "call":
+            t = rv["t"]
+            nm = t["callee"].get("path", "")
+            last = nm.split("::")[-1]
+            if last in ("into_iter", "rev", "by_ref", "iter", "iter_mut") and t["args"] and t["args"][0]["k"] in ("copy", "move") \
+                    and not t["args"][0]["place"]["p"] and last in ("into_iter", "rev", "by_ref"):
+                inner = self._unwrap_def(t["args"][0]["place"]["l"], depth + 1)
+                if inner is not None:
+                    return inner
+        return bb, k, rv
+
+    def iteration_facts(self):
+        """(creation bb, creation k, [constraints], bases Lin) for values whose range follows from how they were
+        produced, valid wherever the creating operands are unchanged since:
+          * item of `for i in a..b` (also reversed): a <= i < b
+          * `off` of `Some(off) = it.position(..)` over a slice iterator of s: off < len(s); over s.windows(n): off + n <= len(s)
+          * s2 = &s[a..] (after the slicing did not panic): len(s2) = len(s) - a;  &s[a..b]: len(s2) = b - a"""
+        if hasattr(self, "_iter_facts"):
+            return self._iter_facts
         out = []
+        b = self.b
+        for i, blk in enumerate(b.blocks):
+            t = blk["term"]
+            if t["k"] != "call" or t["dest"]["p"]:
+                continue
+            nm = t["callee"].get("resolved") or t["callee"].get("path", "")
+            last = nm.split("::")[-1]
+            d = t["dest"]["l"]
+            summ = self.summary_of(nm) if self.summary_of is not None else None
+            if summ:
+                # what the callee guarantees about its result (proved on the callee's own body, see rules/C18.summaries)
+                for k in summ.get("ge_param", []):
+                    if k - 1 < len(t["args"]) and self.single_def(d) is not None:
+                        a = self.lin_op(t["args"][k - 1])
+                        out.append((i, "term", i, [(a.add(Lin({("op", d): 1}), -1), "le")], a))
+                for k, c in summ.get("some_plus_le_len", []):
+                    if k - 1 < len(t["args"]) and t["args"][k - 1]["k"] in ("copy", "move"):
+                        key, _ = self.root_key(t["args"][k - 1]["place"])
+                        ln = Lin({("len", key): 1})
+                        item = Lin({("pl", self.root_key({"l": d, "p": [{"downcast": "Some"}, {"field": "0"}]})[0]): 1})
+                        out.append((i, "term", i, [(item.add(ln, -1).add(Lin({}, c)), "le")], ln))
+            if last in ("next", "next_back", "position", "rposition") and t["args"] and t["args"][0]["k"] in ("copy", "move") \
+                    and not t["args"][0]["place"]["p"]:
+                cre = self._unwrap_def(t["args"][0]["place"]["l"])
+                if cre is None:
+                    continue
+                cb, ck, rv = cre
+                item = Lin({("pl", self.root_key({"l": d, "p": [{"downcast": "Some"}, {"field": "0"}]})[0]): 1})
+                if last in ("next", "next_back") and rv["k"] == "aggregate" and rv.get("adt", "").endswith("ops::Range") and len(rv["ops"]) == 2:
+                    st, en = self.lin_op(rv["ops"][0]), self.lin_op(rv["ops"][1])
+                    out.append((cb, ck, i, [(st.add(item, -1), "le"), (item.add(en, -1).add(Lin({}, 1)), "le")], st.add(en)))
+                elif last in ("position", "rposition") and rv["k"] == "call":
+                    ct = rv["t"]
+                    cn = (ct["callee"].get("resolved") or ct["callee"].get("path", "")).split("::")[-1]
+                    if cn in ("iter", "windows") and ct["args"] and ct["args"][0]["k"] in ("copy", "move"):
+                        key, _ = self.root_key(ct["args"][0]["place"])
+                        ln = Lin({("len", key): 1})
+                        if cn == "iter":
+                            out.append((cb, ck, i, [(item.add(ln, -1).add(Lin({}, 1)), "le")], ln))
+                        elif len(ct["args"]) == 2 and ct["args"][1]["k"] == "const" and (ct["args"][1].get("int") or 0) >= 1:
+                            out.append((cb, ck, i, [(item.add(ln, -1).add(Lin({}, ct["args"][1]["int"])), "le")], ln))
+            elif last == "index" and len(t["args"]) == 2 and "RangeFull" in (t["callee"].get("path_args") or "") and \
+                    t["args"][0]["k"] in ("copy", "move"):
+                key, _ = self.root_key(t["args"][0]["place"])
+                ln = Lin({("len", key): 1})
+                sub = Lin({("len", self.root_key({"l": d, "p": ["deref"]})[0]): 1})
+                out.append((i, "term", i, [(sub.add(ln, -1), "eq")], ln))       # &s[..] has the length of s
+            elif last == "index" and len(t["args"]) == 2 and "Range" in (t["callee"].get("path_args") or "") and \
+                    t["args"][0]["k"] in ("copy", "move") and t["args"][1]["k"] in ("copy", "move") and not t["args"][1]["place"]["p"]:
+                sd = self.single_def(t["args"][1]["place"]["l"])
+                if not sd or sd[2]["k"] != "aggregate":
+                    continue
+                rng = sd[2]
+                key, _ = self.root_key(t["args"][0]["place"])
+                ln = Lin({("len", key): 1})
+                sub = Lin({("len", self.root_key({"l": d, "p": ["deref"]})[0]): 1})
+                adt = rng.get("adt", "")
+                ops = [self.lin_op(o) for o in rng["ops"]]
+                if adt.endswith("ops::RangeFrom") and len(ops) == 1:
+                    out.append((i, "term", i, [(sub.add(ln, -1).add(ops[0]), "eq")], ln.add(ops[0])))
+                elif adt.endswith("ops::Range") and len(ops) == 2:
+                    out.append((i, "term", i, [(sub.add(ops[1], -1).add(ops[0]), "eq")], ops[0].add(ops[1])))
+                elif adt.endswith("ops::RangeTo") and len(ops) == 1:
+                    out.append((i, "term", i, [(sub.add(ops[0], -1), "eq")], ops[0]))
+        self._iter_facts = out
+        return out
+
+    def facts_at(self, site_bb, site_idx, _depth=0):
+        out = list(self.global_facts)
+        for cb, ck, vb, cons, bases in self.iteration_facts():
+            # usable where the value exists (its producing call dominates the site) and the operands the bound talks
+            # about have not been modified since they were read
+            if (vb == site_bb and site_idx != "term") or not self.cfg.dom(vb, site_bb):
+                continue
+            if vb == site_bb and site_idx == "term" and False:
+                continue
+            if self.def_fact_valid((cb, ck, -1, bases), site_bb, site_idx):
+                out.extend(cons)
         if _depth == 0:
             # facts established before  l = l + c  carry over with l replaced by l - c
             for (ib, ik, l, c, rb, rk) in self.self_increments():
